@@ -436,7 +436,9 @@ PROP.LEVEL_TEXT = (
     "emits a trace accepted by (1), so the guards of ClearBy (no squeue in flight), ListStart, Listing, Unrecord, "
     "Record, Submit follow from the lock structure, and after_queue holds of every coroutine execution. PARTIAL: the "
     "coroutine system is hand-written (no coroutine-level correspondence kind; asyncio.Lock abstracted to free/held; "
-    "undeploy and cachebox's inner lock outside it); the event rules are ALSO checked on every real trace of "
+    "cachebox's inner lock outside it); it includes undeploy() (snapshot / scancel in flight / dictionary replaced) and "
+    "the KeyError of a run() popping from the replaced dictionary, and proves that once undeploy() has returned every "
+    "job recorded at its start is out of the queue for every interleaving; the event rules are ALSO checked on every real trace of "
     "SlurmConnector (fake sbatch[two-phase]/squeue/scontrol/scancel behind a fake inner connector, seeded "
     "one-step-at-a-time loop), compared through the END of the trace including after undeploy. Two statements are "
     "false of the code and carried as _refuted + known findings: a job submitted but not yet recorded survives "
